@@ -1012,7 +1012,10 @@ pub fn run_c13(ctx: &Ctx) -> i32 {
             Err(e) => sink.add("C13:panic".into(), format!("poller panicked in the long lifetime: {e}"), json!({"check": "C13", "phase": "long lifetime"})),
         }
     }
+    // end to end through the release binary (procmc/e2e.rs): the PHC clause as the daemon is really started
+    let e2e = c13_end_to_end(ctx, &mut sink);
     let coverage = cov(vec![
+        ("end_to_end_through_the_release_binary", e2e),
         ("long_lifetime_polls", json!(long_steps.len())),
         ("states", json!(alpha.len() * 2)),
         ("transitions", json!(n * depth as u64)),
@@ -1029,6 +1032,82 @@ pub fn run_c13(ctx: &Ctx) -> i32 {
         ("exhaustive", json!(true)),
     ]);
     finish(ctx, Outcome { level: "model_checking", coverage, assumptions: vec!["the request to chronyd is replaced by a scripted answer decoded from wire bytes; std::time::Instant is virtual (clock_gettime interposed)".into(), "a PHC read failure may be reported as either of the two PHC-failure messages (the statement only says it is not used as a measurement)".into()], violations: sink.kept })
+}
+
+/// The PHC clause through `main()`: option handling, the sysfs lookup and the start-up all happen before the
+/// library code the other phases drive. Five scenarios, a few real seconds each, run in parallel namespaces.
+fn c13_end_to_end(ctx: &Ctx, sink: &mut Sink) -> Value {
+    use crate::procmc::e2e::{self, PhcFile, Scenario, ID_OTHER, ID_PHC, IFACE};
+    let bin = e2e::binary(ctx);
+    if !std::path::Path::new(&bin).exists() {
+        return json!({"skipped": format!("release binary {bin} not built")});
+    }
+    let phc_args: Vec<String> = vec!["-r".into(), "PHC0".into(), "-i".into(), IFACE.into()];
+    let scenarios = vec![
+        Scenario { name: "PHC configured and chronyd's reference, error bound attribute reads 12345", args: phc_args.clone(), chronyd: Some((ID_PHC, 0)), phc: PhcFile::Value(12345), preexisting: None, observe_ms: 2500 },
+        Scenario { name: "PHC configured and chronyd's reference, error bound attribute absent", args: phc_args.clone(), chronyd: Some((ID_PHC, 0)), phc: PhcFile::Absent, preexisting: None, observe_ms: 2500 },
+        Scenario { name: "PHC configured and chronyd's reference, error bound attribute appears after 1.5 s", args: phc_args.clone(), chronyd: Some((ID_PHC, 0)), phc: PhcFile::AppearsAfter(1500, 777), preexisting: None, observe_ms: 4500 },
+        Scenario { name: "PHC configured, chronyd's reference is another source, error bound attribute absent", args: phc_args.clone(), chronyd: Some((ID_OTHER, 0)), phc: PhcFile::Absent, preexisting: None, observe_ms: 2500 },
+        Scenario { name: "PHC not configured, chronyd's reference is the PHC", args: vec![], chronyd: Some((ID_PHC, 0)), phc: PhcFile::Value(12345), preexisting: None, observe_ms: 2500 },
+    ];
+    let results: Vec<Result<Value, String>> = std::thread::scope(|s| {
+        let hs: Vec<_> = scenarios.iter().map(|sc| { let bin = bin.clone(); s.spawn(move || e2e::run_scenario(&bin, sc)) }).collect();
+        hs.into_iter().map(|h| h.join().unwrap_or_else(|_| Err("scenario thread panicked".into()))).collect()
+    });
+    let base = crate::gridmc::boundgrid::accepted_bound(&e2e::spec_for(ID_PHC, 0, 0), 0).unwrap();
+    let mut report = vec![];
+    for (i, (sc, r)) in scenarios.iter().zip(results).enumerate() {
+        let v = match r {
+            Ok(v) => v,
+            Err(e) if e == "timeout" => machinery_failure(&format!("end-to-end scenario '{}' did not finish", sc.name)),
+            Err(e) => machinery_failure(&format!("end-to-end scenario '{}': {e}", sc.name)),
+        };
+        if let Some(u) = v["unavailable"].as_str() {
+            return json!({"skipped": format!("the sandbox does not allow it: {u}")});
+        }
+        let pubs = v["publications"].as_array().cloned().unwrap_or_default();
+        let doc = json!({"check": "C13", "phase": "end to end through the release binary", "scenario": sc.name, "command_line": sc.args, "observed": v});
+        // (status 1 = Synchronized) expected PHC addend per publication
+        let addend = |p: &Value| -> Option<i64> {
+            match (i, p["phc_attribute_present"].as_bool().unwrap_or(false)) {
+                (0, _) => Some(12345),
+                (1, _) => None,                 // never a measurement
+                (2, false) => None,
+                (2, true) => Some(777),
+                (3, _) | (4, _) => Some(0),
+                _ => None,
+            }
+        };
+        let mut synced = 0;
+        for p in &pubs {
+            if p["status"] == 1 {
+                synced += 1;
+                let b = p["bound_ns"].as_i64().unwrap_or(-1) as i128;
+                match addend(p) {
+                    None => {
+                        // tolerate the publication that raced with the attribute's appearance
+                        if !(i == 2 && p["t_ms"].as_u64().unwrap_or(0) + 1100 >= 1500) {
+                            sink.add("C13:e2e:phc-failure-used-as-measurement".into(), format!("{}: the daemon published a Synchronized record (bound {b} ns) although the PHC is chronyd's reference and its error bound cannot be read", sc.name), doc.clone());
+                        }
+                    }
+                    Some(a) => {
+                        let ok = |a: i64| b >= base.0 + a as i128 && b <= base.1 + a as i128;
+                        if !(ok(a) || (i == 2 && ok(777))) {
+                            sink.add("C13:e2e:phc-term".into(), format!("{}: Synchronized record with bound {b} ns; expected {}..{} ns plus a PHC error bound of {a} ns", sc.name, base.0, base.1), doc.clone());
+                        }
+                    }
+                }
+            }
+        }
+        if matches!(i, 0 | 3 | 4) && synced == 0 {
+            sink.add("C13:e2e:never-synchronized".into(), format!("{}: no Synchronized record within {} ms ({} publications, daemon exit status {})", sc.name, sc.observe_ms, pubs.len(), v["daemon_exit_status"]), doc.clone());
+        }
+        if i == 2 && !pubs.iter().any(|p| p["status"] == 1 && p["phc_attribute_present"] == true) {
+            sink.add("C13:e2e:phc-never-read-again".into(), format!("{}: three seconds after the attribute appeared there is still no Synchronized record", sc.name), doc.clone());
+        }
+        report.push(json!({"scenario": sc.name, "publications": pubs.len(), "synchronized_publications": synced, "daemon_exit_status": v["daemon_exit_status"]}));
+    }
+    json!({"scenarios": report, "stand_in_chronyd": "answers tracking requests on /var/run/chrony/chronyd.sock in a private mount namespace; reference time = real clock - 1 s"})
 }
 
 pub fn run_c12(ctx: &Ctx) -> i32 {
